@@ -326,10 +326,11 @@ inductive H2 : Option Nat → Option Nat → C2 → Nat → Nat → Prop
   | loop {B C} {j : JKind} {cs pre body upd h k1} : HasHt pre h k1 → j.need ≤ k1 → j.popJump ≤ j.need → j.popFall ≤ j.need →
       H2 (some (k1 - j.popJump)) (some h) body (k1 - j.popFall) h → HasHt upd h h →
       H2 B C (.loop j cs pre body upd) h (k1 - j.popJump)
-  | forever {B C cs body upd h k} : H2 (some k) (some h) body h h → HasHt upd h h → H2 B C (.forever cs body upd) h k
-  | doLoop {B C} {j : JKind} {body test h h' k1} : H2 (some (k1 - j.popFall)) (some h') body h h' → HasHt test h' k1 →
-      j.need ≤ k1 → j.popJump ≤ j.need → j.popFall ≤ j.need → k1 - j.popJump = h →
-      H2 B C (.doLoop j body test) h (k1 - j.popFall)
+  /-- a loop without exit test is left by `break` only: with the loop-head height -/
+  | forever {B C cs body upd h} : H2 (some h) (some h) body h h → HasHt upd h h → H2 B C (.forever cs body upd) h h
+  | doLoop {B C} {j : JKind} {body test h k1} : H2 (some h) (some h) body h h → HasHt test h k1 →
+      j.need ≤ k1 → j.popJump ≤ j.need → j.popFall ≤ j.need → k1 - j.popJump = h → k1 - j.popFall = h →
+      H2 B C (.doLoop j body test) h h
   /-- the catch clause is entered by the handler with the exception value on the saved height (`unwind_height`); without a
   parameter it pops it first, with a parameter the value IS the parameter's slot (`enterBlock` allocates nothing more,
   compiler_stmt.go:176) until `leaveBlock` pops it; all three parts are height-neutral -/
@@ -364,8 +365,7 @@ theorem h2_doLoop_jeqP {B C} {body : C2} {test : Code} {h : Nat} (hb : H2 (some 
     (ht : HasHt test h (h + 1)) : H2 B C (.doLoop jeqP body test) h h := by
   have e1 : h + 1 - jeqP.popFall = h := by simp [jeqP]
   have e2 : h + 1 - jeqP.popJump = h := by simp [jeqP]
-  have hb' : H2 (some (h + 1 - jeqP.popFall)) (some h) body h h := by rw [e1]; exact hb
-  exact H2.conv (H2.doLoop hb' ht (by simp [jeqP]) (by simp [jeqP]) (by simp [jeqP]) e2) e1
+  exact H2.doLoop hb ht (by simp [jeqP]) (by simp [jeqP]) (by simp [jeqP]) e2 e1
 
 /-- the branch-target context of a statement compiled inside / outside a loop entered with `h` operands -/
 def ctx (lc : Option Bool) (h : Nat) : Option Nat := lc.map (fun _ => h)
